@@ -544,20 +544,22 @@ Proof.
   vm_compute. repeat split.
 Qed.
 
-(* F2: `roughly` keeps the bare reference and drops minItems/maxItems: the result is WIDER than b *)
-Lemma exact_refuted_roughly :
-  exists D a b m v, merge D 5 a b = MOk m /\ Vd D 3 m v = true /\ Vd D 3 b v = false.
-Proof. exists w_defs, (SRef w_A), w_fixed, (SRef w_A), w_abc. vm_compute. repeat split. Qed.
+(* F2 (fixed by /repo 884aa7b: roughly_array compares every keyword): the former witness.  Merging the
+   reference with the fixed-length member no longer collapses to the bare reference, and the two orders of
+   the three-member list merge to schemas that agree on the former distinguishing instance. *)
+Lemma f2_witness_keeps_bounds :
+  exists m, merge w_defs 5 (SRef w_A) w_fixed = MOk m /\ Vd w_defs 3 m w_abc = false.
+Proof. eexists. vm_compute. repeat split. Qed.
 
-(* F2: and therefore merge_all depends on the order of the list *)
-Lemma merge_all_perm_refuted :
-  exists D L L' m m' v, Permutation L L' /\ merge_all D 8 L = MOk m /\ merge_all D 8 L' = MOk m'
-                        /\ Vd D 3 m v = true /\ Vd D 3 m' v = false.
+Lemma f2_witness_orders_agree :
+  exists m m', Permutation [SRef w_A; w_fixed; w_narrow] ([w_fixed; w_narrow] ++ [SRef w_A])
+               /\ merge_all w_defs 8 [SRef w_A; w_fixed; w_narrow] = MOk m
+               /\ merge_all w_defs 8 ([w_fixed; w_narrow] ++ [SRef w_A]) = MOk m'
+               /\ Vd w_defs 3 m w_abc = false /\ Vd w_defs 3 m' w_abc = false
+               /\ Vd w_defs 3 m (JArr [JStr (ulit "a"); JStr (ulit "b")]) = true
+               /\ Vd w_defs 3 m' (JArr [JStr (ulit "a"); JStr (ulit "b")]) = true.
 Proof.
-  exists w_defs, [SRef w_A; w_fixed; w_narrow], ([w_fixed; w_narrow] ++ [SRef w_A]).
-  eexists. eexists. exists w_abc.
-  split; [apply Permutation_cons_append|].
-  vm_compute. repeat split.
+  eexists. eexists. split; [apply Permutation_cons_append|]. vm_compute. repeat split.
 Qed.
 
 (* non-vacuity of the scalar theorems *)
